@@ -109,6 +109,37 @@ theorem generator_writes_sequence (c : Cfg) (r : Regs) (ins : List GIn)
   · obtain ⟨_, _, hf⟩ := hm
     rintro (hfsm | hfsm) <;> simp only [hfsm] at hf <;> omega
 
+/-- when the generator reports `done`, the DMA engine's FIFO is empty: every word handed to it has left on the port -/
+def DoneInv (s : GState) : Prop := s.fsm = .done → s.dma.fifo.q = []
+
+theorem done_inv_step (c : Cfg) (r : Regs) (s : GState) (i : GIn) (hd : 2 ≤ c.dma.depth) (hb : c.dma.buffered = false)
+    (hr : i.reset = false) (h : DoneInv s) : DoneInv (gstep c r s i).1 := by
+  have h0 : (c.dma.depth == 0) = false := by simp; omega
+  have h1 : (c.dma.depth == 1) = false := by simp; omega
+  unfold DoneInv at *
+  cases hf : s.fsm <;> simp only [gstep, hr, hf, Dma.wstep, Dma.dataCfg, Fifo.step, Fifo.srcValid, Fifo.sinkReady, h0, h1, hb] <;> simp
+  · intro h'; split at h' <;> simp at h'
+  · intro h'; split at h' <;> simp at h'
+  · intro h'; exfalso; revert h'; (repeat' split) <;> simp
+  · intro h'; simp [h']
+  · simp [h hf]
+
+def gfinal (c : Cfg) (r : Regs) : GState → List GIn → GState
+  | s, [] => s
+  | s, i :: is => gfinal c r (gstep c r s i).1 is
+
+/-- **`done` means written.** From reset, with the DMA engine's default FIFO (16 deep, unbuffered) and no reset in
+between: whenever the generator shows `done`, exactly `nWords` words - the whole sequence - have been handed to the DMA
+engine (`generator_writes_sequence`) and its FIFO is empty, i.e. every one of them has left on the port. -/
+theorem done_means_written (c : Cfg) (r : Regs) (ins : List GIn) (hd : 2 ≤ c.dma.depth) (hb : c.dma.buffered = false)
+    (hr : ∀ i ∈ ins, i.reset = false) : DoneInv (gfinal c r {} ins) := by
+  suffices ∀ s, DoneInv s → DoneInv (gfinal c r s ins) from this _ (by simp [DoneInv])
+  induction ins with
+  | nil => intro s h; simpa [gfinal] using h
+  | cons i is ih =>
+    intro s h
+    exact ih (fun j hj => hr j (by simp [hj])) _ (done_inv_step c r s i hd hb (hr i (by simp)) h)
+
 /-! ### the checker counts exactly the differing positions -/
 
 theorem errCount_snoc (c : Cfg) (r : Regs) (ws : List Nat) (w : Nat) :
